@@ -276,6 +276,26 @@ impl ProofVerifier {
                 .map(|s| s.to_string())
                 .collect();
             for attr_name in attr_names {
+                // The response is tied to the credential only if the attribute is one of the
+                // hidden exponents of this sub-proof: an entry of `eq_proof.m` for an attribute
+                // that the schema lacks, or that the sub-proof reveals, takes no part in the
+                // verification equation and could be copied from another sub-proof.
+                let is_hidden_attr = (credential.credential_schema.attrs.contains(&attr_name)
+                    || credential
+                        .non_credential_schema
+                        .attrs
+                        .contains(&attr_name))
+                    && !credential
+                        .sub_proof_request
+                        .revealed_attrs
+                        .contains(&attr_name);
+                if !is_hidden_attr {
+                    return Err(err_msg!(
+                        ProofRejected,
+                        "Common attribute '{}' is not a hidden attribute of the sub proof",
+                        attr_name,
+                    ));
+                }
                 if proof_item.primary_proof.eq_proof.m.contains_key(&attr_name) {
                     let m_hat = &proof_item.primary_proof.eq_proof.m[&attr_name];
                     match self.common_attributes.entry(attr_name.clone()) {
